@@ -94,6 +94,28 @@ Definition dres_eqb (a b : dres) : bool :=
   | _, _ => false
   end.
 
+(* equality of configuration values up to the order of map entries *)
+Fixpoint cv_eqm (a b : cv) {struct a} : bool :=
+  match a, b with
+  | CNull, CNull => true
+  | CScalar x, CScalar y => String.eqb x y
+  | CList la, CList lb =>
+      (fix go (la lb : list cv) : bool :=
+         match la, lb with
+         | [], [] => true
+         | x :: ra, y :: rb => cv_eqm x y && go ra rb
+         | _, _ => false
+         end) la lb
+  | CMap ka, CMap kb =>
+      Nat.eqb (List.length ka) (List.length kb) &&
+      (fix go (ka : list (string * cv)) : bool :=
+         match ka with
+         | [] => true
+         | (k, x) :: r => match lookup k kb with Some y => cv_eqm x y | None => false end && go r
+         end) ka
+  | _, _ => false
+  end.
+
 Inductive vcase : Type :=
 (* xconfmap.Validate on a synthetic value: the tree as reflect sees it (verdicts = what each
    node's Validate returns), and the flattened error list returned.  [ordered] = the value has
@@ -118,7 +140,14 @@ Inductive vcase : Type :=
 | CMis (k : lkind) (w : wv) (obs : dres)
 (* round trip: the typed configuration [v] of component [name] (defaults [d]) is encoded, the
    encoding loaded again; observed: the typed configuration after the second load *)
-| CRound (name : string) (d v : otv) (obs : tv).
+| CRound (name : string) (d v : otv) (obs : tv)
+(* a section with several instances of one component type (ids as written) and the typed
+   configuration of each instance after the load *)
+| CSec (name : string) (d : tv) (sec : list (string * cv)) (obs : list (string * tv))
+(* Extensions.NotifyConfig: the collector's conf, the extensions in start order (None = no
+   ConfigWatcher, Some merges = what the watcher does to its copy); observed per watcher: what it
+   was handed and what it holds in the end; and the collector's conf afterwards *)
+| CNotify (conf : cv) (exts : list (option (list (path * cv)))) (obs : list (cv * cv)) (after : cv).
 
 Definition check_case (c : vcase) : bool :=
   match c with
@@ -146,6 +175,11 @@ Definition check_case (c : vcase) : bool :=
   | CEff v obs => cv_eqb (encode v) obs
   | CMis k w obs => dres_eqb (decode_leaf k w) obs
   | CRound name d v obs => tv_eqb (decode_model name (o_strip d) (encode_o v)) obs
+  | CSec name d sec obs =>
+      list_eqb (fun a b => String.eqb (fst a) (fst b) && tv_eqb (snd a) (snd b)) (decode_section name d sec) obs
+  | CNotify conf exts obs after =>
+      let '(rs, conf') := notify conf exts in
+      list_eqb (fun a b => cv_eqm (fst a) (fst b) && cv_eqm (snd a) (snd b)) rs obs && cv_eqm conf' after
   end.
 
 (* model outputs, for replay files *)
@@ -156,7 +190,9 @@ Inductive vout : Type :=
 | ODec (l : option (list (path * string)))
 | OFaith (v : tv)
 | OEff (c : cv)
-| OMis (r : dres).
+| OMis (r : dres)
+| OSec (l : list (string * tv))
+| ONotify (r : list (cv * cv) * cv).
 
 Definition model_out (c : vcase) : vout :=
   match c with
@@ -168,4 +204,6 @@ Definition model_out (c : vcase) : vout :=
   | CEff v _ => OEff (encode v)
   | CMis k w _ => OMis (decode_leaf k w)
   | CRound name d v _ => OFaith (decode_model name (o_strip d) (encode_o v))
+  | CSec name d sec _ => OSec (decode_section name d sec)
+  | CNotify conf exts _ _ => ONotify (notify conf exts)
   end.
